@@ -98,7 +98,9 @@ StepFreeRestart ==
                 \E o \in S : o.a = Me /\ o.tp = T /\ (o.seq = Ev.published[k] \/ (o.prune /\ o.seq > Ev.published[k]))
           /\ \A a \in Authors : c[a] >= prevc[a]
           /\ Len(Ev.others) = 0
-          /\ (R = {}) = (Len(Ev.markers) = 0)
+          \* ReplayStarted / ReplayEnded appear iff some range is non-empty (operations without
+          \* body are replayed too: acknowledged by the node, not delivered)
+          /\ (Len(Ev.markers) = 0) = ({o \in S : o.tp = T /\ o.seq > c[o.a]} = {})
           /\ stored' = S /\ assoc' = AssocOf(Ev.assoc) /\ cursor' = c
           /\ base' = c /\ ackd' = {}
     /\ up' = FALSE /\ policy' = "auto" /\ pub' = IdlePub /\ pubq' = <<>> /\ st' = IdleSt /\ rq' = <<>>
